@@ -289,7 +289,7 @@ pub const BY_CORRESPONDENCE_ONLY: &[&str] = &[
 pub const FIXED_NAMES: &[&str] = &[
     "Some", "None", "Ok", "Err", "Option", "Result", "Vec", "Box", "String", "Ordering", "Ord", "PartialOrd", "PartialEq",
     "Eq", "Hash", "Default", "max", "min", "alt", "opt", "peek", "preceded", "terminated", "delimited", "separated",
-    "repeat_till", "take_while", "literal", "digit1", "space0", "space1", "eof", "any", "Parser", "PResult", "ErrMode",
+    "repeat_till", "take_while", "separated_pair", "literal", "digit1", "space0", "space1", "eof", "any", "Parser", "PResult", "ErrMode",
     "vec", "write", "unreachable", "panic", "debug_assert", "assert", "matches", "format", "todo", "unimplemented",
 ];
 
@@ -311,6 +311,7 @@ pub const EXPECTED_IMPORTS: &[(&str, &str)] = &[
     ("preceded", "winnow::combinator::preceded"),
     ("repeat_till", "winnow::combinator::repeat_till"),
     ("separated", "winnow::combinator::separated"),
+    ("separated_pair", "winnow::combinator::separated_pair"),
     ("terminated", "winnow::combinator::terminated"),
     ("ErrMode", "winnow::error::ErrMode"),
     ("any", "winnow::token::any"),
